@@ -306,7 +306,7 @@ def run(chk):
                     if serde_model.is_conditional(cs):
                         cond.append(v)
             chk.ob("R3 client data order", "R3|fixed-members-unconditional", not cond, where(b), "conditionally emitted fixed members: %s" % (cond or "none"))
-        tr = [bb for bb in p.all_bodies if bb.path == "passkey_types::webauthn::attestation::truthiness"]
+        tr = [bb for bb in p.all_bodies if bb.crate == "passkey_types" and bb.path == bb.root and bb.path.rsplit("::", 1)[-1] == "truthiness"]
         if tr:
             chk.touched(tr[0])
             ok = bool(names.calls_to(tr[0], "Serializer::serialize_bool"))
